@@ -15,12 +15,14 @@ import logging
 import math
 import os
 import pickle
+import re
 import sys
 from numbers import Number
 
 import networkx as nx
 import numpy as np
 from ruamel.yaml import YAML
+from ruamel.yaml.scalarstring import DoubleQuotedScalarString
 
 from pycel.excelformula import ExcelFormula
 from pycel.excelutil import (
@@ -41,6 +43,10 @@ REF_FORMAT = REF_START + '{}' + REF_END
 Mismatch = collections.namedtuple('Mismatch', 'original calced formula')
 
 pycel_logger = logging.getLogger('pycel')
+
+
+UNICODE_LINE_BREAKS_RE = re.compile('[\x85\u2028\u2029]')
+NOT_READ_AS_IS_RE = re.compile('[\x7f-\x9f\u2028\u2029\ufeff\ufffe\uffff]')
 
 
 class ExcelCompiler:
@@ -229,17 +235,30 @@ class ExcelCompiler:
                          if os.path.exists(filename) else None)
 
         if not is_json:
+            def escaped(value):
+                """unicode line breaks are read back as a blank if not escaped"""
+                if isinstance(value, dict):
+                    return {escaped(k): escaped(v) for k, v in value.items()}
+                elif isinstance(value, (list, tuple)):
+                    return [escaped(v) for v in value]
+                elif isinstance(value, str) and UNICODE_LINE_BREAKS_RE.search(value):
+                    return DoubleQuotedScalarString(value)
+                return value
+
             with open(filename, 'w') as f:
                 ymlo = YAML()
                 # folding a line at two or more blanks does not read back as
                 # written, and formulas do hold text with blanks: never fold
                 ymlo.width = sys.maxsize
-                ymlo.dump(extra_data, f)
+                ymlo.dump(escaped(extra_data), f)
         else:
             with open(filename, 'w') as f:
                 # characters as they are, the loader does not join the
-                # surrogate pairs json uses to escape non BMP characters
-                json.dump(extra_data, f, indent=4, ensure_ascii=False)
+                # surrogate pairs json uses to escape non BMP characters,
+                # but for those characters the loader does not take as is
+                f.write(NOT_READ_AS_IS_RE.sub(
+                    lambda match: f'\\u{ord(match.group()):04x}',
+                    json.dumps(extra_data, indent=4, ensure_ascii=False)))
 
         del extra_data['cell_map']
 
